@@ -6,7 +6,6 @@ import (
 	"go/token"
 	"go/types"
 
-
 	"pgoverif/checker/an"
 	"pgoverif/checker/core"
 )
